@@ -13,18 +13,29 @@ let handle kind c =
   | "cr" ->
     let init = next c in
     let status = next c in
+    let faulted = next_bool c in
     let hl = next_n c in
     let s0 = next_n c in let h0 = next_bool c in
     let nth = next_int c in
     let nev = next_int c in
     let st = ref ({ c_size = s0; c_hdr = h0 }, List.init nth (fun _ -> fresh_opener)) in
-    let diverged = ref false in
+    (* FileCreate has no failing calls: scenarios with an injected failure are judged by the oracles only *)
+    let diverged = ref faulted in
+    let lim_reported = ref false in
     for ev = 1 to nev do
       match next c with
       | "k" -> ignore (next_int c)
       | "s" ->
         let tid = next_int c in let phase = next c in let lab = next c in
         let sz = next_n c in let hd = next_bool c in let opened = next_bool c in
+        let lim = next_n c in
+        (* well formed at every instant, in particular at every kill point and after a failed write:
+           the allocation limit never lies beyond the end of the file *)
+        if int_of_n lim > int_of_n sz && not !lim_reported then begin
+          lim_reported := true;
+          prop "limit-beyond-file" (Printf.sprintf "event %d (opener %d, after its %s): allocation limit %s beyond the file length %s (initial state %s): an opener that re-maps now finds limit > length and reports a corrupt file"
+                                      ev tid lab (hex_of_n lim) (hex_of_n sz) init)
+        end;
         if phase = "open" && not !diverged then begin
           let o = List.nth (Stdlib.snd !st) tid in
           let where = Printf.sprintf "event-%d-opener-%d-%s" ev tid init in
@@ -41,6 +52,17 @@ let handle kind c =
               diverged := true; diff (where ^ "-returned") ~model:(pc_name o'.o_pc) ~impl:(string_of_bool opened) end
           end
         end
+        else if phase = "use" && not !diverged then begin
+          (* after its open a process changes the file only by growing it by whole pages *)
+          let f = Stdlib.fst !st in
+          let a = int_of_n f.c_size and b = int_of_n sz in
+          if hd <> f.c_hdr || b < a || (b > a && b mod 16384 <> 0) then begin
+            diverged := true;
+            diff (Printf.sprintf "event-%d-opener-%d-%s-use-file" ev tid init)
+              ~model:(Printf.sprintf "size>=%s (whole pages) hdr=%b" (hex_of_n f.c_size) f.c_hdr)
+              ~impl:(Printf.sprintf "size=%s hdr=%b" (hex_of_n sz) hd) end
+          else st := ({ c_size = sz; c_hdr = hd }, Stdlib.snd !st)
+        end
       | t -> failwith ("event " ^ t)
     done;
     let threads = List.init nth (fun _ ->
@@ -55,13 +77,13 @@ let handle kind c =
      | _ -> ());
     let survivors = List.filter (fun (k, _, _, _, _, _, _) -> not k) threads in
     List.iteri (fun i (killed, dn, op, rs, nm, _, _) ->
-        if not killed && status = "ok" then begin
+        if not killed && status = "ok" && not faulted then begin
           if op <> "ok" then
             prop "survivor-open-failed" (Printf.sprintf "opener %d (not killed) could not open the counter file found in state %s (result %s; done=%b): its counters never reach a file" i init op dn)
           else if rs <> "cell" then
             prop "survivor-failed" (Printf.sprintf "opener %d (not killed): newCounter(%s) failed after a successful open" i (tok_of_bytes nm))
         end;
-        if not !diverged && status = "ok" && not killed then begin
+        if not !diverged && status = "ok" && not killed && not faulted then begin
           let o = List.nth (Stdlib.snd !st) i in
           if (o.o_pc = CDone true) <> (op = "ok") then
             diff (Printf.sprintf "open-result-%d-%s" i init) ~model:(pc_name o.o_pc) ~impl:op
